@@ -4,13 +4,16 @@ import z3
 
 from . import vals as V
 from .vals import Val
-from .engine import (Z, PyTuple, RefV, ListBox, SeqBox, AbsBox, ObjBox, LambdaV, FuncV, ClassV, BuiltinV,
+from .engine import (Z, PyTuple, RefV, ListBox, SeqBox, AbsBox, ObjBox, LambdaV, GenV, FuncV, ClassV, BuiltinV,
                      ModuleV, SpecFuncV, Exc, Unsupported, State, Obligation, BUILTIN_EXC_PARENT,
                      is_exc, assigned_names, MUTATING_METHODS)
 
 LOG_METHODS = {"debug", "verbose", "info", "warning", "error"}      # dropped calls (A-LOG); `critical` is NOT dropped
 BUILTIN_TYPES = {"bool", "int", "float", "str", "list", "dict", "set", "tuple", "object", "type", "bytes", "complex"}
 # library classes -> the builtin kind isinstance() sees (assumption about ruamel.yaml 0.17.21 class hierarchy)
+# attributes of library classes the engine may rely on (assumption about ruamel.yaml 0.17.21)
+LIB_CLASS_ATTRS = {"TaggedScalar": ("value", "tag", "style"), "CommentedMap": ("merge", "anchor", "ca", "fa"),
+                   "CommentedSeq": ("anchor", "ca", "fa"), "CommentedSet": ("anchor",)}
 LIB_KIND = {"CommentedSeq": "list", "CommentedMap": "dict", "OrderedDict": "dict", "ordereddict": "dict",
             "CommentedSet": "CommentedSet", "TaggedScalar": "TaggedScalar", "deque": "deque"}
 
@@ -62,8 +65,8 @@ class Executor:
     def exc_parent(self, name):
         ci = self.P.find_class(name)
         if ci is not None:
-            return ci.bases[0].split(".")[-1] if ci.bases else "Exception"
-        return BUILTIN_EXC_PARENT.get(name, "Exception" if name != "BaseException" else None)
+            return ci.bases[0].split(".")[-1] if ci.bases else None
+        return BUILTIN_EXC_PARENT.get(name)
 
     def exc_isa(self, name, target):
         seen = 0
@@ -87,11 +90,13 @@ class Executor:
     def discharge(self, ob, want_model=True):
         import time
         t0 = time.time()
-        r, m = self.solver.check(ob.formulas, want_model=want_model)
+        r, m = self.solver.check(ob.formulas, want_model=want_model, use_cvc5=True)
         ob.time = time.time() - t0
         ob.status = r
-        ob.solver = "z3"
-        if m is not None:
+        ob.solver = self.solver.last_solver
+        if isinstance(m, dict):
+            ob.model = m
+        elif m is not None:
             ob.model = self.render_model(m)
         return r
 
@@ -424,6 +429,23 @@ class Executor:
             out.append((s, v if is_exc(v) else s.alloc(ListBox(v))))
         return out
 
+    def ev_Dict(self, e, st):
+        if any(k is None for k in e.keys):
+            raise Unsupported("dict unpacking in a display", e)
+        out = []
+        for (s, vals) in self.ev_list(list(e.keys) + list(e.values), st):
+            if is_exc(vals):
+                out.append((s, vals))
+            else:
+                n = len(e.keys)
+                box = AbsBox("dict", z3.IntVal(n), None)
+                box.items = list(zip(vals[:n], vals[n:]))
+                out.append((s, s.alloc(box)))
+        return out
+
+    def ev_Set(self, e, st):
+        raise Unsupported("set display", e)
+
     def ev_IfExp(self, e, st):
         out = []
         if self.pure:
@@ -619,6 +641,30 @@ class Executor:
                 return [(s, s.alloc(ListBox(ba.items + bb.items, ba.elem, ba.kind)))]
         if isinstance(op, ast.Add) and isinstance(a, PyTuple) and isinstance(b, PyTuple):
             return [(s, PyTuple(a.items + b.items))]
+        if isinstance(op, ast.Add) and isinstance(a, RefV) and isinstance(b, RefV):
+            ba, bb = s.store[a.ref], s.store[b.ref]
+            if isinstance(ba, AbsBox) and isinstance(bb, (ListBox, AbsBox)) and ba.length is not None:
+                extra = z3.IntVal(len(bb.items)) if isinstance(bb, ListBox) else bb.length
+                if extra is not None:
+                    return [(s, s.alloc(AbsBox("list", ba.length + extra, ba.elem_ann)))]
+        if isinstance(op, ast.Add) and isinstance(a, Z) and isinstance(b, RefV) and isinstance(s.store[b.ref], (ListBox, AbsBox)):
+            # <heap list> + <local list>: a new list (neither operand is modified)
+            res = []
+            for (s2, x) in self.need(s, V.isinstance_of(a.t, "list"), "TypeError", e, "left operand of list concatenation is a list"):
+                if x is not None:
+                    res.append((s2, x))
+                    continue
+                bb = s2.store[b.ref]
+                extra = z3.IntVal(len(bb.items)) if isinstance(bb, ListBox) else bb.length
+                n0 = V.seq_len(V.get_rid(a.t))
+                s2.assume(n0 >= 0)
+                res.append((s2, s2.alloc(AbsBox("list", (n0 + extra) if extra is not None else None, None))))
+            return res
+        if isinstance(a, RefV) and isinstance(s.store[a.ref], ObjBox):
+            dunder = {ast.Add: "__add__", ast.Sub: "__sub__"}.get(type(op))
+            ci = self.P.find_class(s.store[a.ref].cls)
+            if dunder and ci is not None and dunder in ci.methods:
+                return self.call_function(ci.methods[dunder], [a, b], {}, s, e)
         raise Unsupported("binary op %s on %s,%s" % (type(op).__name__, type(a).__name__, type(b).__name__), e)
 
     # -- comparisons -------------------------------------------------------
@@ -761,6 +807,8 @@ class Executor:
                     return [(s, z3.And(V.is_Str(item.t), z3.Contains(box.term, z3.Unit(V.get_s(item.t)))))]
                 self.assumptions.add("`x in list` on a symbolic list uses term equality (exact for str/None/enum elements)")
                 return [(s, z3.Contains(box.term, z3.Unit(item.t)))]
+            if isinstance(box, AbsBox) and box.kind == "dict" and isinstance(item, Z):
+                return [(s, V.dict_has(z3.IntVal(container.ref * 1000 + getattr(box, "version", 0)), item.t))]
             raise Unsupported("`in` on opaque collection", node)
         if isinstance(container, Z) and isinstance(item, Z):
             c, i = container.t, item.t
@@ -881,10 +929,14 @@ class Executor:
                     return [(s, BuiltinV("method." + attr, bound=base))]
                 if box.symbolic:
                     ann = None
-                    key = "self.%s" % attr
+                    key = "%s.%s" % (box.name, attr)
                     if key in self.contract.assume_fields:
                         ann = ast.parse(self.contract.assume_fields[key], mode="eval").body
                     v = self.fresh_of_annotation(ann, "fld_%s_%s" % (box.cls, attr), s, node)
+                    einv = self.contract.opts.get("elem_inv", {}).get(key)
+                    if einv and isinstance(v, RefV) and isinstance(s.store[v.ref], AbsBox):
+                        s.store[v.ref].elem_inv = einv
+                        s.store[v.ref].owner = base.ref
                     box.fields[attr] = v
                     return [(s, v)]
                 return [(s, Exc("AttributeError", self.origin(node), "no attribute %s on %s" % (attr, box.cls)))]
@@ -898,12 +950,44 @@ class Executor:
             # field read of a heap object: safe iff the object is an instance of a class that has the attribute
             owners = self.classes_with_attr(attr)
             t = base.t
-            ok = z3.And(V.is_Ref(t), z3.Or([V.kind_of(V.get_rid(t)) == V.kind_id(c) for c in owners] or [T(False)]))
+            if base.hint == ("lib", "Anchor") and attr == "value":
+                self.assumptions.add("ruamel.yaml: an object's .anchor is an Anchor whose .value is a str or None")
+                r = V.lib_attr(t, z3.StringVal(attr))
+                s.assume(z3.Or(V.is_None(r), V.is_Str(r)))
+                return [(s, Z(r))]
+            libowners = [c for c, attrs in LIB_CLASS_ATTRS.items() if attr in attrs and c == "TaggedScalar"]
+            ok = z3.Or(z3.And(V.is_Ref(t), z3.Or([V.kind_of(V.get_rid(t)) == V.kind_id(LIB_KIND.get(c, c)) for c in owners + libowners] or [T(False)])),
+                       V.has_attr(t, z3.StringVal(attr)))
             out = []
             for (s2, x) in self.need(s, ok, "AttributeError", node, "object has attribute .%s" % attr):
-                out.append((s2, x if x is not None else Z(V.field_fn(attr)(V.get_rid(t)))))
+                if x is not None:
+                    out.append((s2, x))
+                    continue
+                is_owner = z3.And(V.is_Ref(t), z3.Or([V.kind_of(V.get_rid(t)) == V.kind_id(LIB_KIND.get(c, c)) for c in owners + libowners] or [T(False)]))
+                val = z3.If(is_owner, V.field_fn(attr)(V.get_rid(t)), V.lib_attr(t, z3.StringVal(attr)))
+                hint = None
+                # class invariant of heap objects: a field holds a value of the type its class annotates for it
+                for cname in owners:
+                    ann = self.field_hint(cname, attr)
+                    over = self.contract.opts.get("heap_fields", {}).get("%s.%s" % (cname, attr))
+                    if over:
+                        ann = ast.parse(over, mode="eval").body
+                    if ann is not None:
+                        cst, _h = self.constraint_of_annotation(ann, V.field_fn(attr)(V.get_rid(t)))
+                        if cst is not None:
+                            s2.assume(z3.Implies(V.kind_of(V.get_rid(t)) == V.kind_id(cname), cst))
+                            self.assumptions.add("class invariant: %s.%s holds a value of its annotated type %s" % (cname, attr, ast.unparse(ann)))
+                if attr == "anchor":
+                    hint = ("lib", "Anchor")
+                elif attr == "merge":
+                    self.assumptions.add("ruamel.yaml: CommentedMap.merge is a list of (position, mapping) 2-tuples")
+                    s2.assume(z3.And(V.is_Ref(val), V.kind_of(V.get_rid(val)) == V.K_LIST))
+                    hint = ("lib", "mergelist")
+                out.append((s2, Z(val, hint)))
             return out
         if isinstance(base, PyTuple):
+            return [(s, BuiltinV("method." + attr, bound=base))]
+        if isinstance(base, tuple) and base and base[0] == "kwargs":
             return [(s, BuiltinV("method." + attr, bound=base))]
         raise Unsupported("attribute %s of %s" % (attr, type(base).__name__), node)
 
@@ -983,7 +1067,8 @@ class Executor:
             if isinstance(ann, ast.Name):
                 ci = self.P.find_class(ann.id)
                 if ci is not None and not ci.is_enum:
-                    return s.alloc(ObjBox(ci.name, {}, symbolic=True, ident=z3.Int(name + "_id")))
+                    pname = name[3:] if name.startswith("in_") else name
+                    return s.alloc(ObjBox(ci.name, {}, symbolic=True, ident=z3.Int(name + "_id"), name=pname.replace("kw_", "")))
         t = z3.Const(name, Val)
         c, hint = self.constraint_of_annotation(ann, t)
         if c is not None:
@@ -1073,6 +1158,32 @@ class Executor:
             ob.status = "pending"
             self.pending.append((ob, exc, s))
             return [(s, exc)]
+        if isinstance(base, RefV) and isinstance(s.store[base.ref], AbsBox) and s.store[base.ref].kind == "dict" and isinstance(idx, Z):
+            box = s.store[base.ref]
+            did = z3.IntVal(base.ref * 1000 + getattr(box, "version", 0))
+            out = []
+            for (s2, x) in self.need(s, V.dict_has(did, idx.t), "KeyError", node, "key present in the dict"):
+                out.append((s2, x if x is not None else Z(V.dict_get(did, idx.t))))
+            return out
+        if isinstance(base, RefV) and isinstance(s.store[base.ref], AbsBox):
+            box = s.store[base.ref]
+            if not isinstance(idx, Z) or box.length is None or box.elem_ann is None:
+                raise Unsupported("index into an opaque collection", node)
+            n = box.length
+            i = V.to_int(idx.t)
+            ok = z3.And(self.isk(idx, "intlike"), i >= -n, i < n)
+            out = []
+            for (s2, x) in self.need(s, ok, "IndexError", node, "index within the sequence"):
+                if x is not None:
+                    out.append((s2, x))
+                    continue
+                b2 = s2.store[base.ref]
+                key = z3.simplify(self.norm_index(i, n)).sexpr()
+                if key not in b2.reads:
+                    b2.reads[key] = self.fresh_of_annotation(b2.elem_ann, "item%d_%d" % (base.ref, len(b2.reads)), s2, node)
+                    self.assume_elem_inv(b2, b2.reads[key], s2, node, self.norm_index(i, n))
+                out.append((s2, b2.reads[key]))
+            return out
         if isinstance(base, RefV) and isinstance(s.store[base.ref], SeqBox):
             box = s.store[base.ref]
             if not isinstance(idx, Z):
@@ -1116,6 +1227,32 @@ class Executor:
             return self.heap_index(base, idx, s, node)
         raise Unsupported("subscript of %s" % type(base).__name__, node)
 
+    def assume_elem_facts(self, container_t, elem, s, node):
+        """Lemmas exported by callee contracts about the elements of a heap sequence (e.g. node_is_aoh):
+        instantiated at each element read of that very sequence."""
+        for (rid, clause, env) in s.flags.get("elem_facts", ()):
+            e2 = dict(env)
+            e2["elem"] = elem
+            for (s2, b) in self.eval_clause(clause, s, e2, node):
+                s2.assume(z3.Implies(V.get_rid(container_t) == rid, b))
+
+    def assume_elem_inv(self, box, elem, s, node, index=None):
+        """Class invariants about the elements of an abstract sequence are assumed at every (first) read."""
+        invs = getattr(box, "elem_inv", None)
+        if not invs:
+            return
+        env = {}
+        env["elem"] = elem
+        owner = getattr(box, "owner", None)
+        if owner is not None:
+            env["path"] = RefV(owner)
+        if index is not None:
+            env["index"] = Z(V.VInt(index), "int")
+        for inv in ([invs] if isinstance(invs, str) else invs):
+            for (s2, b) in self.eval_clause(inv, s, env, node):
+                s2.assume(b)
+            self.assumptions.add("element invariant (established by the parser) assumed on path segments: %s" % inv)
+
     def heap_index(self, base, idx, s, node):
         """data[idx] on a pre-existing heap value (list / tuple / dict / str); read-only heap functions."""
         t, i = base.t, idx.t
@@ -1131,6 +1268,8 @@ class Executor:
         if self.pure:
             return [(s, Z(val))]
         s.assume(n >= 0)
+        if base.hint == ("lib", "mergetuple"):
+            s.assume(z3.And(V.is_Ref(t), V.kind_of(rid) == V.K_TUPLE, n == 2))
         out = []
         for (s2, x) in self.need(s, z3.Or(is_seq, is_map, V.is_Str(t)), "TypeError", node, "subscripted value is a list, tuple, dict or str"):
             if x is not None:
@@ -1146,7 +1285,12 @@ class Executor:
                         continue
                     rng = z3.If(V.is_Str(t), z3.And(ii >= -sn, ii < sn), z3.And(ii >= -n, ii < n))
                     for (s5, w) in self.need(s4, z3.Implies(z3.Not(is_map), rng), "IndexError", node, "index within the sequence"):
-                        out.append((s5, w if w is not None else Z(val)))
+                        if w is None:
+                            zv = Z(val)
+                            self.assume_elem_facts(t, zv, s5, node)
+                            out.append((s5, zv))
+                        else:
+                            out.append((s5, w))
         return out
 
     def slice(self, base, lo, hi, s, node):
@@ -1214,7 +1358,32 @@ class Executor:
         return out
 
     def call_with_star(self, e, st):
-        raise Unsupported("call with *args/**kwargs", e)
+        if any(isinstance(a, ast.Starred) for a in e.args):
+            raise Unsupported("call with *args", e)
+        f = e.func
+        out = []
+        named = [k for k in e.keywords if k.arg is not None]
+        stars = [k for k in e.keywords if k.arg is None]
+        for (s, fv) in (self.ev_Attribute(f, st, for_call=True) if isinstance(f, ast.Attribute) else self.ev(f, st)):
+            if is_exc(fv):
+                out.append((s, fv))
+                continue
+            for (s2, vals) in self.ev_list(list(e.args) + [k.value for k in named] + [k.value for k in stars], s):
+                if is_exc(vals):
+                    out.append((s2, vals))
+                    continue
+                args = vals[:len(e.args)]
+                kwargs = {k.arg: v for k, v in zip(named, vals[len(e.args):])}
+                for extra in vals[len(e.args) + len(named):]:
+                    if not (isinstance(extra, tuple) and extra and extra[0] == "kwargs"):
+                        raise Unsupported("** of a value that is not the function's own **kwargs", e)
+                    for k_, v_ in extra[1].items():
+                        if k_ in kwargs:
+                            out.append((s2, Exc("TypeError", self.origin(e), "duplicate keyword argument %s" % k_)))
+                            break
+                        kwargs[k_] = v_
+                out.extend(self.call(fv, args, kwargs, s2, e))
+        return out
 
     def is_logger(self, node):
         src = ast.unparse(node)
@@ -1234,8 +1403,9 @@ class Executor:
 
     def call_function(self, fi, args, kwargs, s, node):
         cs = self.registry.get(fi.qualname)
-        if cs and fi.qualname not in self.contract.inline and not (fi is self.fi and False):
-            return self.apply_contract(cs[0], fi, args, kwargs, s, node)
+        if cs and fi.qualname not in self.contract.inline:
+            pick = [c for c in cs if c.opts.get("callsite")] or cs
+            return self.apply_contract(pick[0], fi, args, kwargs, s, node)
         return self.inline_call(fi, args, kwargs, s, node)
 
     def bind_args(self, fi, args, kwargs, s, node):
@@ -1337,7 +1507,7 @@ class Executor:
             return [(s, s.alloc(ObjBox(name, {"args": PyTuple(args)})))]
         ci = cv.ci or self.P.find_class(name)
         if ci is not None:
-            obj = s.alloc(ObjBox(ci.name, {}))
+            obj = s.alloc(ObjBox(ci.name, {}, ident=V.fresh("newobj", V.I)))
             init = None
             for cname in self.P.class_mro(ci):
                 c = self.P.find_class(cname)
@@ -1416,9 +1586,30 @@ class Executor:
             if is_exc(v):
                 out.append((s, ("raise", v)))
             else:
+                self.check_yield_type(v, s, y)
                 s.out.append((v, getattr(y, "lineno", 0)))
                 out.append((s, None))
         return out
+
+    def check_yield_type(self, v, s, node):
+        """K2: every value yielded by the function under verification has the type its contract promises callers."""
+        ann = self.contract.opts.get("yields") if self.cur_fi is self.fi else None
+        if not ann:
+            return
+        tree = ast.parse(ann, mode="eval").body
+        names = [ast.unparse(x) for x in (tree.slice.elts if isinstance(tree, ast.Subscript) and ast.unparse(tree.value) == "Union" else [tree])]
+        if isinstance(v, Z):
+            c, _h = self.constraint_of_annotation(tree, v.t)
+            if c is not None:
+                self.prove(s, c, "K2", node, "yielded value is %s" % ann, clause="yields:" + ann)
+            return
+        ok = False
+        if isinstance(v, RefV):
+            box = s.store[v.ref]
+            kind = box.cls if isinstance(box, ObjBox) else getattr(box, "kind", "list")
+            ok = kind in names or "Any" in names
+        ob = self.add_obl("K2", node, "yielded value is %s" % ann, [T(not ok)], clause="yields:" + ann)
+        ob.status, ob.solver = ("unsat" if ok else "sat"), "syntactic"
 
     def st_Return(self, stmt, st):
         if stmt.value is None:
@@ -1501,11 +1692,12 @@ class Executor:
             ci = self.P.find_class(box.cls)
             if ci is not None and attr in ci.setters:
                 out = []
-                for (s2, r) in self.call_function(ci.setters[attr], [base, v], {}, s, stmt):
+                call = self.call_function if box.symbolic else self.inline_call
+                for (s2, r) in call(ci.setters[attr], [base, v], {}, s, stmt):
                     out.append((s2, ("raise", r)) if is_exc(r) else s2)
                 return out
             # data-structure invariant: a store into an annotated field keeps the annotated type
-            key = "self.%s" % attr
+            key = "%s.%s" % (box.name, attr)
             if box.symbolic and key in self.contract.assume_fields and isinstance(v, Z):
                 ann = ast.parse(self.contract.assume_fields[key], mode="eval").body
                 c, _h = self.constraint_of_annotation(ann, v.t)
